@@ -53,12 +53,56 @@ def impl_wf_oracle(o):
     return bad
 
 
+def coarse_steps_oracle(sp, a, prob):
+    """an asset with an own coarser frequency (and no own window): every dispatch variable is mapped to exactly the grid steps of one
+    coarse interval (calendar resolved by pandas here, independently of the implementation)"""
+    import pandas as pd
+    import modelspec as M
+    g = sp['grid']
+    tz = g.get('tz')
+    if not a.get('freq') or a['freq'] == g['freq'] or a.get('start') or a.get('end') or a['kind'] in ('ScaledAsset', 'StructuredAsset'):
+        return None
+    fine = M.grid_pts(g)[:-1]
+    cp = [int(p.value // 10 ** 9) for p in pd.date_range(start=M.tstamp(g['start'], tz), end=M.tstamp(g['end'], tz), freq=a['freq'], tz=tz)]
+    groups = [frozenset(t for t, x in enumerate(fine) if lo <= x < hi) for lo, hi in zip(cp[:-1], cp[1:])]
+    groups = [gr for gr in groups if gr]
+    byvar = {}
+    for r in prob['mapping']:
+        if r['type'] == 'd':
+            byvar.setdefault((r['index'], r['node']), set()).add(r['time_step'])
+    bad = {('variable %d at %s' % k): sorted(v) for k, v in byvar.items() if frozenset(v) not in groups}
+    return bad or None
+
+
 def run(ctx):
     if not ctx.proof_gate(THEOREMS):
         return
     n = 60 if ctx.tier == 'quick' else 400
     specs = util.corpus(ctx.prop) + gen.gen_many(ctx.seed, n, CFG, 'c07_')
     specs += util.orderbook_tail_specs(ctx.seed, 10 if ctx.tier == 'quick' else 60, 'c07ob_', split=False)
+    # coarse steps of unequal length: daily assets on an hourly grid across a clock change (23 h and 25 h days)
+    days = [{'start': s, 'end': e, 'freq': 'h', 'unit': u, 'tz': 'CET'} for s, e in (('2021-03-27 00:00', '2021-03-29 00:00'), ('2021-10-30 00:00', '2021-11-01 00:00'),
+                                                                                   ('2021-03-28 00:00', '2021-03-30 00:00')) for u in ('h', 'd')]
+    specs += gen.gen_many(ctx.seed, 4 if ctx.tier == 'quick' else 24, dict(CFG, grids=days, p_coarse=0.8, coarse_freqs=['d'], p_window=0.0, p_periodic=0.0, p_gap=0.0, n_assets=(1, 3),
+                                                                           p_max_store=0.0, p_full_exec=0.0,
+                                                                           kinds={'SimpleContract': 2, 'Contract': 1, 'Transport': 1, 'Storage': 1, 'MultiCommodityContract': 1}), 'c07day_')
+    # earlier set-ups in the same process (portfolios in which some node has no dispatch at all, or other assets of the same names)
+    seq = gen.gen_many(ctx.seed, 12 if ctx.tier == 'quick' else 80, dict(CFG, nodes=(2, 3)), 'c07seq_')
+    pre = gen.gen_many(ctx.seed, len(seq), dict(CFG, nodes=(2, 3), n_assets=(2, 4), p_window=1.0, window_kinds=['before', 'after', 'before', 'inside'], p_coarse=0.0, p_periodic=0.0,
+                                                kinds={'SimpleContract': 3, 'Storage': 1, 'Transport': 1}), 'c07pre_')
+    for sp, p in zip(seq, pre):
+        # in every second prelude everything connected to one node lies before the horizon
+        if int(sp['id'].split('_')[-1]) % 2 == 0:
+            pts = gen.grid_points(p['grid'])
+            st = gen.freq_td(p['grid']['freq'])
+            dark = sp['assets'][0]['nodes'][0]
+            if any(dark not in a['nodes'] for a in p['assets']):
+                for a in p['assets']:
+                    if dark in a['nodes']:
+                        a['start'], a['end'] = gen.fmt(pts[0] - 5 * st), gen.fmt(pts[0] - 2 * st)
+                        a.pop('freq', None); a.pop('periodicity', None); a.pop('periodicity_duration', None)
+        sp['opts']['prelude'] = [p]
+    specs += seq
     for sp in specs:
         sp['opts']['no_solve'] = True
     specs = ctx.specs(specs)
@@ -79,6 +123,12 @@ def run(ctx):
                           trigger={'what': sorted(bad)[0]})
             if 'nan' in bad or 'lengths' in bad:
                 continue        # not expressible as a rational problem; already reported
+        for a, r in zip(sp['assets'], pa['assets']):
+            if r['status'] == 'ok':
+                cb = coarse_steps_oracle(sp, a, r['problem'])
+                if cb:
+                    ctx.violation('impl-violation', {'spec': sp, 'asset': a, 'observed': cb, 'expected': 'the steps named for a variable are the grid steps of its coarse interval'},
+                                  trigger={'what': 'coarse steps'})
         if any(r['status'] != 'ok' for r in pa['assets']):
             ctx.count('asset alone fails but portfolio works')
             continue
@@ -90,6 +140,8 @@ def run(ctx):
             C.lst([C.nat(i) for i in o['I']]), aps, C.lp(prob), C.mapping(prob['mapping']), rec))
         owners.append(sp)
         ctx.sample({'spec': sp})
+    # the stand-alone asset problems and mappings against the model builders (the assembled problem is compared with these parts below)
+    util.asset_corr(ctx, specs, parts, 'C07a')
     vals = C.run_coq_exprs('C07', 'Num LP Cert Mapping Dcf Grid Assets Periodic Portfolio Corr Build', exprs, chunk=5)
     for sp, v in zip(owners, vals):
         ctx.cov['correspondence']['cases'] += 1
